@@ -144,8 +144,34 @@ def explore(ck, plan, stats, workers):
             if ck.disagree(rec, replay):
                 nrej += 1
     # statistics / vacuity counters
+    # worst error among the comparisons TLC accepted (documents the margin of the accuracy constants)
+    rejected = set()
+    for rj in jres.emitted:
+        for f in rj["fails"]:
+            rejected.add((rj["id"], f["tag"], f["step"], f["name"] if f["tag"] in ("form", "alg") else "", f["k"]))
+
+    def worst(key, e):
+        if e < 9000 and e > stats["worst"].get(key, -10000):
+            stats["worst"][key] = e
     for r in done:
         k = r["kind"]
+        prod = [i + 1 for i, st in enumerate(r["steps"]) if st["op"] in ("fwd", "inv")]
+        for i, ob in enumerate(r["obs"]):
+            for f in ob["forms"]:
+                if (r["id"], "form", i + 1, f["name"], 0) not in rejected:
+                    worst(k + " entry points", f["e"])
+            for a_ in ob["alg"]:
+                if a_["name"] not in ("out-mean=0", "out-cov=I") and (r["id"], "alg", i + 1, a_["name"], 0) not in rejected:
+                    worst(k + " " + a_["name"], a_["e"])
+        for s_ in r["same"]:
+            if (r["id"], "same", prod[s_["k"] - 1], "", s_["k"]) not in rejected:
+                worst(k + " arrays with equal normal forms", s_["e"])
+        for s_ in r["fresh"]:
+            if (r["id"], "fresh", prod[s_["k"] - 1], "", s_["k"]) not in rejected:
+                worst(k + " array vs fresh evaluation of its normal form", s_["e"])
+        for s_ in r["exact"]:
+            if (r["id"], "exact", prod[s_["k"] - 1], "", s_["k"]) not in rejected:
+                worst(k + " exact image residual", s_["res"])
         stats["cases"][k] += 1
         nfit = 0
         for st, ob in zip(r["steps"], r["obs"]):
@@ -202,13 +228,15 @@ def run(tier):
         plans.append(dict(full, tag="len4small", seed=seed + 1, maxlen=4, orders=[20], rawsets=["skew", "tsel"],
                           multisets=["m2", "m3"], rotelems=[2, 5, 7, 10], kinds=["AH", "AE", "PCA", "MAF", "ROT"]))
     else:
-        plans.append(dict(full, tag="len4", seed=seed, maxlen=4, orders=[5, 20, 40], rotelems=[1, 2, 3, 5, 6, 7, 8, 10]))
-        for d in range(1, 5):
+        plans.append(dict(full, tag="len4", seed=seed, maxlen=4, orders=[5, 12, 20, 30, 40]))
+        plans.append(dict(full, tag="len5small", seed=seed + 1, maxlen=5, orders=[20], rawsets=["tsel"], multisets=["m2"],
+                          rotelems=[2, 5, 7, 10]))
+        for d in range(2, 8):
             plans.append(dict(full, tag="len3s%d" % d, seed=seed + d, maxlen=3, orders=[5, 8, 12, 20, 30, 40]))
     stats = {"cases": collections.Counter(), "ops": collections.Counter(), "refits": collections.Counter(),
              "forms": collections.Counter(), "alg": collections.Counter(), "mono": collections.Counter(),
              "same": collections.Counter(), "fresh": collections.Counter(), "exact": collections.Counter(),
-             "roundtrips": collections.Counter(), "elements": 0, "mono_elements": 0, "comparisons": 0, "nontrivial": 0}
+             "roundtrips": collections.Counter(), "worst": {}, "elements": 0, "mono_elements": 0, "comparisons": 0, "nontrivial": 0}
     for p in plans:
         explore(ck, dict(p, exe=exe), stats, workers)
     if os.environ.get("VERIF_C18_DUMP"):      # development aid: all unlisted disagreements, one per line
@@ -237,6 +265,7 @@ def run(tier):
     ck.cov["algebraic_identities_evaluated"] = dict(stats["alg"])
     ck.cov["monotonicity_checks"] = dict(stats["mono"])
     ck.cov["round_trips_back_to_a_data_set"] = dict(stats["roundtrips"])
+    ck.cov["worst_accepted_error_x100_log10"] = dict(sorted(stats["worst"].items()))
     ck.cov["array_elements_compared"] = stats["elements"]
     ck.cov["rank_pattern_elements"] = stats["mono_elements"]
     ck.cov["evaluations"] = stats["comparisons"]
